@@ -217,11 +217,13 @@ func parseLine(fields []string) (*BED, error) {
 		}
 	}
 
-	if len(bed.BlockSizes) != bed.BlockCount {
+	// The block lists can only be compared with blockCount when the line has
+	// them: a 10-field line has neither, an 11-field line has no blockStarts.
+	if n > 10 && len(bed.BlockSizes) != bed.BlockCount {
 		return nil, fmt.Errorf("blockSizes has %v values but blockCount is %v",
 			len(bed.BlockSizes), bed.BlockCount)
 	}
-	if len(bed.BlockStarts) != bed.BlockCount {
+	if n > 11 && len(bed.BlockStarts) != bed.BlockCount {
 		return nil, fmt.Errorf("blockStarts has %v values but blockCount is %v",
 			len(bed.BlockStarts), bed.BlockCount)
 	}
